@@ -33,6 +33,7 @@ import (
 	grpcammo "github.com/yandex/pandora/components/providers/grpc"
 	"github.com/yandex/pandora/core"
 	"github.com/yandex/pandora/core/aggregator/netsample"
+	"github.com/yandex/pandora/core/engine"
 	"github.com/yandex/pandora/core/warmup"
 	"go.uber.org/zap"
 )
@@ -187,6 +188,7 @@ func runHTTP(m map[string]string) string {
 	}
 	g := shot.HTTPGunConf{Type: m["gun"], AutoTag: m["auto"] == "1", Elements: atoi(m["el"], 0), NoTagOnly: m["nto"] == "1",
 		RHTimeoutMs: atoi(m["rht"], 0)}
+	o := optsOf(m)
 	switch m["tgt"] {
 	case "dead":
 		g.Target = shot.DeadAddr()
@@ -200,12 +202,24 @@ func runHTTP(m map[string]string) string {
 		g.Target = r3SharedTLS(true)
 	case "r3tls1":
 		g.Target = r3SharedTLS(false)
+	case "nd", "nf", "nl":
+		// round 4: a host NAME nobody listens at while the gun is configured (the DNS-caching dialer stays in the transport)
+		name, after, done := r4NamedTarget(m["tgt"])
+		defer done()
+		g.Target = name
+		o.afterDecode = after
+		if o.afterDecode == nil {
+			o.afterDecode = func([]engine.InstancePoolConfig) string { return "" }
+		}
 	default:
 		g.Target = sharedTarget()
 	}
 	inst := atoi(m["inst"], 1)
 	conf := spliceGunOpts(shot.HTTPPool(g, reqs, inst), m)
-	res := runEngineOpt(conf, optsOf(m), 40*time.Second)
+	if d := atoi(m["dto"], 0); d > 0 {
+		conf = strings.Replace(conf, "dial: {timeout: 2s}", fmt.Sprintf("dial: {timeout: %dms}", d), 1)
+	}
+	res := runEngineOpt(conf, o, 40*time.Second)
 	if inst > 1 {
 		// several instances: which request got which id depends on the interleaving of the Acquire calls. Every ammo of
 		// such a case carries the unique tag r<i>; samples are printed under the REQUEST's number (from the tag) and the
@@ -487,6 +501,27 @@ func runIds(m map[string]string) string {
 	default:
 		panic("bad prov " + m["prov"])
 	}
+	if start, ok := r4Start(m); ok {
+		// round 4: the run goes on from a counter that stands at `start` (as after `start` acquisitions)
+		o := optsOf(m)
+		narrow := ""
+		o.afterDecode = func(pools []engine.InstancePoolConfig) string {
+			if bits, ok := r4PresetCounter(pools[0].Provider, start); !ok {
+				narrow = fmt.Sprintf("res=counter-narrow bits=%d", bits)
+				return "config:counter-narrow"
+			}
+			return ""
+		}
+		res := runEngineOpt(conf, o, 60*time.Second)
+		if narrow != "" {
+			return narrow
+		}
+		var all []uint64
+		for _, s := range res.Samples {
+			all = append(all, s.ID)
+		}
+		return strings.Replace(r4IDSummary(all, start), "res=ok", "res="+res.Class, 1)
+	}
 	res := shot.RunEngine(conf, 60*time.Second)
 	ids := map[uint64]int{}
 	var mn, mx uint64
@@ -698,7 +733,7 @@ func runGrpcDirect(m map[string]string) string {
 // (other checks run on the same machine): an engine run that did not end, a dial / TLS-handshake / response timeout
 // without a silent target, a client-side gRPC Unavailable / DeadlineExceeded, exhausted ports or descriptors.
 func suspicious(m map[string]string, input, obs string) bool {
-	if m["k"] == "errno" || m["k"] == "idstress" || m["k"] == "shootstress" {
+	if m["k"] == "errno" || m["k"] == "idstress" || m["k"] == "shootstress" || m["k"] == "idwrap" {
 		return false // no network, no engine
 	}
 	if strings.Contains(obs, "res=hang") || strings.Contains(obs, "errno99") || strings.Contains(obs, "errno24") ||
@@ -707,7 +742,12 @@ func suspicious(m map[string]string, input, obs string) bool {
 	}
 	switch m["k"] {
 	case "http", "scn":
+		if m["tgt"] == "nf" {
+			return false // the dial timeout is the script
+		}
 		return !strings.Contains(input, "acthang") && (strings.Contains(obs, "timeout") || strings.Contains(obs, ":tmo"))
+	case "grpcpool":
+		return strings.Contains(obs, ":503:") || strings.Contains(obs, ":504:")
 	case "grpc", "grpcscn", "grpcdirect":
 		if strings.Contains(input, ",hang,") {
 			return false
@@ -772,6 +812,10 @@ func run0(m map[string]string) string {
 		return runInv(m)
 	case "grpcdirect":
 		return runGrpcDirect(m)
+	case "grpcpool":
+		return runGrpcPool(m)
+	case "idwrap":
+		return runIDWrap(m)
 	}
 	return "bad-input"
 }
@@ -1385,6 +1429,8 @@ func gen(r *rand.Rand, tier string) []string {
 	}
 	// 12. third round: redirects, pauses, cancellation during a pause (round3.go)
 	out = append(out, genRound3(r, thorough)...)
+	// 13. fourth round: pooled gRPC ammo objects, id counters far into a run, dial failures through the DNS-caching dialer
+	out = append(out, genRound4(r, thorough)...)
 	return out
 }
 
@@ -1471,10 +1517,25 @@ func class(input, obs string) string {
 		}
 	case "idstress", "shootstress":
 		c += ":g" + m["g"]
+	case "idwrap":
+		c += ":" + r4StartClass(m["start"])
+	case "grpcpool":
+		if atoi(m["inst"], 1) > 1 {
+			c += ":multi"
+		}
+		if atoi(m["dirty"], 0) > 0 {
+			c += ":preseeded"
+		}
+		if m["agg"] == "phout" {
+			c += ":phout"
+		}
 	case "ids":
 		c += ":" + m["prov"]
 		if m["pre"] == "1" {
 			c += ":preload"
+		}
+		if m["start"] != "" {
+			c += ":" + r4StartClass(m["start"])
 		}
 	}
 	if strings.Contains(obs, "res=panic") || strings.HasPrefix(obs, "PANIC") {
